@@ -54,6 +54,13 @@ theorem pearson_r2_in_unit_interval {n : ℕ} (a b : Fin n → ℝ)
   · rw [div_le_one hpos]
     exact Finset.sum_mul_sq_le_sq_mul_sq Finset.univ a b
 
+open LdStat in
+/-- whatever number `ComputeLD` (Pearson) reports is a fraction in `[0, 1]`: the integer form of Cauchy–Schwarz on the
+    dosages of the samples without missing calls -/
+theorem pearson_r2_fraction_in_unit_interval (cand index : List (Nat × Nat)) (n d : Int)
+    (h : clumpLd cand index = .r2 n d) : 0 < d ∧ 0 ≤ n ∧ n ≤ d :=
+  clumpLd_r2_bounds cand index n d h
+
 end C17R
 
 namespace C09R
